@@ -113,10 +113,13 @@ def correspondence(ctx):
 
 
 # ------------------------------------------------------------------ search
-def make_problem(rng, lens=False, npix=20):
+def make_problem(rng, lens=False, npix=20, origin=(0.0, 0.0)):
     det = detector_grid(npix, 0.1)
+    if origin != (0.0, 0.0):
+        # a cropped hologram keeps its original coordinates: the grid need not start at the origin
+        det = det.assign_coords(x=det.x + origin[0], y=det.y + origin[1])
     r0 = float(rng.uniform(0.4, 0.7))
-    c0 = (float(rng.uniform(0.7, 1.3)), float(rng.uniform(0.7, 1.3)), float(rng.uniform(5, 9)))
+    c0 = (origin[0] + float(rng.uniform(0.7, 1.3)), origin[1] + float(rng.uniform(0.7, 1.3)), float(rng.uniform(5, 9)))
     a0 = float(rng.uniform(0.65, 0.95))
     th = MieLens(lens_angle=0.8) if lens else Mie()
     data = calc_holo(det, Sphere(n=1.59, r=r0, center=c0), theory=th, scaling=a0, **OPT)
@@ -124,9 +127,9 @@ def make_problem(rng, lens=False, npix=20):
     return det, data, truth, th
 
 
-def make_model(truth, start, theory, noise=0.05):
+def make_model(truth, start, theory, noise=0.05, origin=(0.0, 0.0)):
     sc = Sphere(n=1.59, r=Uniform(0.2, 1.0, guess=start['r']),
-                center=[Uniform(0, 2, guess=start['x']), Uniform(0, 2, guess=start['y']), Uniform(3, 12, guess=start['z'])])
+                center=[Uniform(origin[0], origin[0] + 2, guess=start['x']), Uniform(origin[1], origin[1] + 2, guess=start['y']), Uniform(3, 12, guess=start['z'])])
     return AlphaModel(sc, alpha=Uniform(0.5, 1.0, guess=start['alpha']), noise_sd=noise, theory=theory, **OPT)
 
 
@@ -137,28 +140,29 @@ def search(ctx):
     try:
         for i in range(n):
             lens = (i % 5 == 4)
-            det, data, truth, th = make_problem(rng, lens=lens, npix=16 if lens else 20)
+            origin = (0.0, 0.0) if i % 2 == 1 else (float(rng.integers(1, 30)) * 0.1, float(rng.integers(1, 30)) * 0.1)
+            det, data, truth, th = make_problem(rng, lens=lens, npix=16 if lens else 20, origin=origin)
             for S in (NmpfitStrategy, LeastSquaresScipyStrategy):
                 sname = S.__name__
                 try:
                     # --- fixed point: start at the generating parameters
                     ctx.tried("fixed-point", (sname, lens, i))
-                    model = make_model(truth, truth, th)
+                    model = make_model(truth, truth, th, origin=origin)
                     strat = S()
                     res = hp.fit(data, model, strategy=strat)
                     names = ['r', 'center.0', 'center.1', 'center.2', 'alpha']
                     want = [truth['r'], truth['x'], truth['y'], truth['z'], truth['alpha']]
                     got = [res.parameters[nm] for nm in names]
-                    info = dict(kind="fit", strategy=sname, truth=truth, lens=lens)
+                    info = dict(kind="fit", strategy=sname, truth=truth, lens=lens, origin=list(origin))
                     if list(res.parameters.keys()) != model._parameter_names:
                         ctx.violation("C13:names:%s" % sname, "result parameter names %r are not the model's %r" % (list(res.parameters), model._parameter_names), info)
-                    if max(abs(a - b) for a, b in zip(got, want)) > 1e-6:
+                    if not (max(abs(a - b) for a, b in zip(got, want)) <= 1e-6):
                         ctx.violation("C13:fixed-point:%s" % sname, "fit of noise-free data started at the generating parameters moved away: %r vs %r" % (got, want), info)
                     # --- nearby start: not worse, within bounds, recovers
                     ctx.tried("nearby", (sname, lens, i))
-                    start = {k: v * float(rng.uniform(0.98, 1.02)) for k, v in truth.items()}
+                    start = {k: (v * float(rng.uniform(0.98, 1.02)) if k not in ('x', 'y') else v + float(rng.uniform(-0.02, 0.02))) for k, v in truth.items()}
                     start['alpha'] = min(0.99, max(0.51, start['alpha']))
-                    model2 = make_model(truth, start, th)
+                    model2 = make_model(truth, start, th, origin=origin)
                     strat2 = S()
                     res2 = hp.fit(data, model2, strategy=strat2)
                     got2 = [res2.parameters[nm] for nm in names]
@@ -166,21 +170,21 @@ def search(ctx):
                     mis_guess = float(((model2.forward(guess_vals, data) - data) ** 2).sum())
                     mis_fit = float(((model2.forward(got2, data) - data) ** 2).sum())
                     info2 = dict(info, start=start, fitted=got2)
-                    if mis_fit > mis_guess * (1 + 1e-9) + 1e-18:
+                    if not (mis_fit <= mis_guess * (1 + 1e-9) + 1e-18):
                         ctx.violation("C13:worse:%s" % sname, "fit returned a worse misfit (%.3g) than its starting guess (%.3g)" % (mis_fit, mis_guess), info2)
                     for v, p in zip(got2, model2._parameters):
                         if not (p.lower_bound <= v <= p.upper_bound):
                             ctx.violation("C13:bounds:%s" % sname, "fitted parameter %r outside its prior's bounds [%r, %r]" % (v, p.lower_bound, p.upper_bound), info2)
                     tol = 2e-3 if lens else 1e-4
-                    if max(abs(a - b) / max(1, abs(b)) for a, b in zip(got2, want)) > tol:
+                    if not (max(abs(a - b) / max(1, abs(b)) for a, b in zip(got2, want)) <= tol):
                         ctx.violation("C13:recovery:%s" % sname, "fit from a start within 2%% did not recover the generating parameters: %r vs %r" % (got2, want), info2)
                     # --- consistency of the result
                     holo = res2.hologram
                     fwd = model2.forward(got2, data)
-                    if float(np.abs(np.asarray(holo.values).ravel() - np.asarray(fwd.values).ravel()).max()) > 1e-12:
+                    if not (float(np.abs(np.asarray(holo.values).ravel() - np.asarray(fwd.values).ravel()).max()) <= 1e-12):
                         ctx.violation("C13:result-hologram:%s" % sname, "result.hologram is not the forward model at the reported parameters", info2)
                     lpb = model2.lnposterior(got2, res2.data)
-                    if abs(res2.max_lnprob - lpb) > 1e-9 * max(1, abs(lpb)):
+                    if not (abs(res2.max_lnprob - lpb) <= 1e-9 * max(1, abs(lpb))):
                         ctx.violation("C13:result-lnprob:%s" % sname, "result.max_lnprob is not the posterior at the reported parameters", info2)
                     # --- repeatable, objects reusable
                     res3 = hp.fit(data, model2, strategy=strat2)
@@ -196,8 +200,14 @@ def search(ctx):
                         np.random.seed(3)
                         res4 = hp.fit(data, model2, strategy=strat4)
                         got4 = [res4.parameters[nm] for nm in names]
-                        if max(abs(a - b) / max(1, abs(b)) for a, b in zip(got4, want)) > 10 * tol:
+                        if not (max(abs(a - b) / max(1, abs(b)) for a, b in zip(got4, want)) <= 10 * tol):
                             ctx.violation("C13:subset-recovery:%s" % sname, "fit on a random pixel subset did not recover the parameters: %r" % (got4,), info2)
+                        # the best-fit hologram of a subset fit is the forward model on the data's own grid
+                        h4 = res4.hologram
+                        f4 = model2.forward(got4, data)
+                        same_grid = all(c in h4.coords and h4[c].shape == data[c].shape and np.allclose(h4[c].values, data[c].values, atol=1e-12) for c in ('x', 'y'))
+                        if not same_grid or not (float(np.abs(h4.transpose(*data.dims).values - f4.transpose(*data.dims).values).max()) <= 1e-10):
+                            ctx.violation("C13:result-hologram-subset:%s" % sname, "after a fit on a pixel subset, result.hologram is not the forward model at the reported parameters on the data's grid (grid origin %r)" % (list(origin),), info2)
                     # --- save / load of the result
                     if i % 3 == 0:
                         ctx.tried("save-load", (sname, i))
